@@ -164,17 +164,45 @@ def build_points(case) -> torch.Tensor:
 
 
 def chs_scale(p64: torch.Tensor):
-    pmax = float(p64.abs().max()) if p64.numel() else 0.0
-    dmax = float((p64[..., 1:, :] - p64[..., :-1, :]).abs().max()) if p64.shape[-2] > 1 else 0.0
+    """per-fibre scales (shape batch + (D,)): max |p| and max |Δp| along the point axis — every coordinate of every
+    batch item is judged against its OWN magnitude (a 1e-30 fibre next to a 1e+30 fibre keeps its own tolerance)"""
+    pmax = p64.abs().amax(dim=-2)
+    dmax = (p64[..., 1:, :] - p64[..., :-1, :]).abs().amax(dim=-2) if p64.shape[-2] > 1 else torch.zeros_like(pmax)
     return pmax, dmax
 
 
+def worst(err: torch.Tensor, tol: torch.Tensor):
+    """(ok, flat index of the worst ratio) for err <= tol element-wise (NaN counts as a failure)"""
+    bad = ~(err <= tol)
+    if not bool(bad.any()):
+        return True, -1
+    ratio = torch.where(bad, torch.nan_to_num(err / (tol + 1e-300), nan=math.inf, posinf=math.inf), torch.zeros_like(err))
+    return False, int(ratio.flatten().argmax())
+
+
+def guard(ctx: Ctx, case, what: str, fn):
+    """class (8): whatever the implementation returns (wrong type/shape/dtype, NaN, exception inside a helper fed with
+    its output) becomes a failure with the case — never an exception of the harness"""
+    try:
+        fn()
+    except common.InfraError:
+        raise
+    except Exception as e:
+        import traceback
+        tb = traceback.format_exc().strip().splitlines()
+        ctx.fail(pub(case), f"{what}-misbehaviour: implementation output could not be processed: {excs(e)} [{tb[-3].strip()[:90] if len(tb) >= 3 else ''}]")
+
+
 def check_chs(ctx: Ctx, case, mb: MB) -> None:
+    guard(ctx, case, "chs", lambda: _check_chs(ctx, case, mb))
+
+
+def _check_chs(ctx: Ctx, case, mb: MB) -> None:
     P = pp()
     dtype, iv, N, D = case["dtype"], case["interval"], case["N"], case["D"]
     eps = EPS[dtype]
     batch = tuple(case["batch"])
-    pts = build_points(case)
+    pts = case["_pts"] if "_pts" in case else build_points(case)
     before = pts.clone()
     try:
         out = P.chspline(pts, iv)
@@ -199,7 +227,7 @@ def check_chs(ctx: Ctx, case, mb: MB) -> None:
         else:
             ctx.fail(pub(case), f"chs-count: {L} samples = (N-1)*{k}+1 for N={N}, interval={iv!r}; the interval has {ke} multiples in [0,1)")
             return
-    # model: rational count
+    case["_out"] = out
     F = Fraction(iv)
 
     def cb_count(rep, ke=ke):
@@ -209,39 +237,49 @@ def check_chs(ctx: Ctx, case, mb: MB) -> None:
     mb.add(f"c19.count {F.numerator} {F.denominator}", cb_count)
     p64 = before.double()
     o64 = out.double()
-    pmax, dmax = chs_scale(p64)
-    tol_alg = 64 * eps * (pmax + N * dmax) + 1e-300
-    # oracle: interpolation at integer times
+    if not bool(torch.isfinite(o64).all()):
+        ctx.fail(pub(case), f"chs-finite: chspline returned non-finite samples for finite points (N={N}, interval={iv!r}, dtype={dtype})")
+        return
+    pmax, dmax = chs_scale(p64)                       # batch + (D,)
+    sc_alg = (pmax + N * dmax).unsqueeze(-2)          # broadcast over the sample axis
+    sc_pt = (pmax + dmax).unsqueeze(-2)
+    tiny = 1e-300
+    if p64.numel() == 0:
+        return
+    # oracle: interpolation at integer times (per fibre)
     at_knots = o64[..., ::k, :]
-    err = float((at_knots - p64).abs().max())
-    if not err <= 16 * eps * (pmax + dmax):
-        i = int((at_knots - p64).abs().amax(dim=-1).flatten().argmax()) % N
-        ctx.fail(pub(case), f"chs-interp: sample at integer time differs from the input point by {err:.3e} (> {16 * eps * (pmax + dmax):.3e}), point index {i}, N={N}, k={k}")
-    # model: up to 3 fibres
+    ok, j = worst((at_knots - p64).abs(), 16 * eps * sc_pt.expand_as(p64) + tiny)
+    if not ok:
+        e = float((at_knots - p64).abs().flatten()[j])
+        ctx.fail(pub(case), f"chs-interp: sample at integer time differs from the input point by {e:.3e} (flat index {j} of the points, own scale {float(sc_pt.expand_as(p64).flatten()[j]):.3e}), N={N}, k={k}")
+    # model: up to 3 fibres, each with its own tolerance
     rnd = random.Random(case["seed"] + 1)
     pf = p64.reshape(-1, N, D)
     of = o64.reshape(-1, L, D)
+    scf = sc_alg.reshape(-1, D)
     fibres = {(rnd.randrange(pf.shape[0]), rnd.randrange(D)) for _ in range(3)}
     for (b, d) in sorted(fibres):
         col = pf[b, :, d].tolist()
         got = of[b, :, d].tolist()
+        tol_f = 64 * eps * float(scf[b, d]) + tiny
 
-        def cb(rep, got=got, b=b, d=d):
+        def cb(rep, got=got, b=b, d=d, tol_f=tol_f):
             st, toks = common.parse_reply(rep)
             want = [float(common.from_wire(t)) for t in toks] if st == "ok" else None
             if want is None or len(want) != len(got):
                 ctx.disagree("chs", pub(case), f"fibre ({b},{d}): model reply {rep[:60]} vs {len(got)} samples")
                 return
             e = max(abs(a - c) for a, c in zip(got, want))
-            if not e <= tol_alg:
+            if not e <= tol_f:
                 j = max(range(len(got)), key=lambda n: abs(got[n] - want[n]))
-                ctx.disagree("chs", pub(case), f"fibre ({b},{d}) sample {j} (segment {j // k}, u-index {j % k}): implementation {got[j]!r} model {want[j]!r}, err {e:.3e} > {tol_alg:.3e}")
+                ctx.disagree("chs", pub(case), f"fibre ({b},{d}) sample {j} (segment {j // k}, u-index {j % k}): implementation {got[j]!r} model {want[j]!r}, err {e:.3e} > {tol_f:.3e}")
                 ctx.fail(pub(case), f"chs-value: chspline sample {j} of fibre ({b},{d}) is {got[j]!r}, the Hermite spline through the points gives {want[j]!r} (N={N}, interval={iv!r})")
         mb.add(f"c19.chs {N} {k} {to_wire(iv)} " + wire_list(col), cb)
-    # oracle: straight lines a + i d are reproduced exactly at the right times
+    # oracle: straight lines a + i d are reproduced at the right times (per coordinate)
     rl = random.Random(case["seed"] + 2)
-    a = torch.tensor([rl.uniform(-3, 3) * case["scale"] for _ in range(D)], dtype=torch.float64)
-    s = torch.tensor([rl.uniform(-2, 2) * case["scale"] for _ in range(D)], dtype=torch.float64)
+    mags = [float(x) if float(x) > 0 else 1.0 for x in pmax.reshape(-1, D)[0].tolist()]
+    a = torch.tensor([rl.uniform(-3, 3) * mags[d] for d in range(D)], dtype=torch.float64)
+    s = torch.tensor([rl.uniform(-2, 2) * mags[d] for d in range(D)], dtype=torch.float64)
     idx = torch.arange(N, dtype=torch.float64)[:, None]
     line = (a + idx * s).to(DT[dtype])
     try:
@@ -251,51 +289,66 @@ def check_chs(ctx: Ctx, case, mb: MB) -> None:
         l64 = line.double()
         a_eff, s_eff = l64[0], (l64[-1] - l64[0]) / (N - 1)
         want = a_eff + tl[:, None] * s_eff
-        tl_tol = 64 * eps * (float(l64.abs().max()) + N * float(s_eff.abs().max())) + 1e-300
-        e = float((lo - want).abs().max())
-        if lo.shape[-2] != L or not e <= tl_tol:
-            ctx.fail(pub(case), f"chs-line: straight line a+i*d sampled at integer times is not reproduced: max deviation {e:.3e} > {tl_tol:.3e} (N={N}, interval={iv!r}, dtype={dtype})")
+        tl_tol = 64 * eps * (l64.abs().amax(dim=0) + N * s_eff.abs()) + tiny
+        if lo.shape[-2] != L:
+            ctx.fail(pub(case), f"chs-line: {lo.shape[-2]} samples for a straight line, {L} for the case's points")
+        else:
+            ok, j = worst((lo - want).abs(), tl_tol.expand_as(lo))
+            if not ok:
+                e = float((lo - want).abs().flatten()[j])
+                ctx.fail(pub(case), f"chs-line: straight line a+i*d sampled at integer times is not reproduced: deviation {e:.3e} at flat index {j} (own tolerance {float(tl_tol.expand_as(lo).flatten()[j]):.3e}; N={N}, interval={iv!r}, dtype={dtype})")
     except Exception as e:
         ctx.fail(pub(case), f"chs-raises: chspline raised on a straight line: {excs(e)}")
     # oracle: affine equivariance (the spline is linear in the points and reproduces constants)
     ra = random.Random(case["seed"] + 3)
     Mx = torch.tensor([[ra.uniform(-1, 1) for _ in range(D)] for _ in range(D)], dtype=torch.float64)
-    bv = torch.tensor([ra.uniform(-1, 1) * max(pmax, 1e-30) for _ in range(D)], dtype=torch.float64)
+    if bool((sc_alg.reshape(-1, D).amax(dim=0) > 1e3 * (sc_alg.reshape(-1, D).amin(dim=0) + tiny)).any()):
+        Mx = torch.diag(torch.diagonal(Mx))           # very unequal coordinate magnitudes: do not mix them
+    bv = pmax.reshape(-1, D).amax(dim=0) * torch.tensor([ra.uniform(-1, 1) for _ in range(D)], dtype=torch.float64)
     q64 = (p64 @ Mx.T + bv).to(DT[dtype])
     try:
         oq = P.chspline(q64.clone(), iv).double()
         want = o64 @ Mx.T + bv
-        sc = D * (pmax + N * dmax) + float(bv.abs().max())
-        e = float((oq - want).abs().max()) if oq.shape == want.shape else math.inf
-        if not e <= 64 * eps * sc * 4 + 1e-300:
-            ctx.fail(pub(case), f"chs-affine: chspline(A p + b) differs from A chspline(p) + b by {e:.3e} > {64 * eps * sc * 4:.3e}")
+        sc = sc_alg @ Mx.abs().T + bv.abs()
+        if oq.shape != want.shape:
+            ctx.fail(pub(case), f"chs-affine: shapes differ {tuple(oq.shape)} vs {tuple(want.shape)}")
+        else:
+            ok, j = worst((oq - want).abs(), (256 * eps * sc + tiny).expand_as(want))
+            if not ok:
+                e = float((oq - want).abs().flatten()[j])
+                ctx.fail(pub(case), f"chs-affine: chspline(A p + b) differs from A chspline(p) + b by {e:.3e} at flat index {j} (own tolerance {float((256 * eps * sc + tiny).expand_as(want).flatten()[j]):.3e})")
     except Exception as e:
         ctx.fail(pub(case), f"chs-raises: chspline raised on an affine image: {excs(e)}")
     # oracle: locality — moving point j changes only samples with time in (j-2, j+2)
     if N >= 3:
         j = ra.randrange(N)
         p2 = before.clone()
-        p2[..., j, :] += (1.0 + pmax)
+        p2[..., j, :] += (1.0 + pmax).to(p2.dtype)
         try:
             o2 = P.chspline(p2, iv).double()
             times = (torch.arange(L) // k).double() + (torch.arange(L) % k).double() * iv
             far = (times <= j - 2) | (times >= j + 2)
             if o2.shape == o64.shape and far.any():
-                e = float((o2[..., far, :] - o64[..., far, :]).abs().max())
-                if not e <= 16 * eps * (pmax + dmax):
-                    ctx.fail(pub(case), f"chs-local: moving point {j} changed samples at distance >= 2 knots by {e:.3e}")
+                ok, jj = worst((o2[..., far, :] - o64[..., far, :]).abs(), (16 * eps * sc_pt + tiny).expand_as(o64[..., far, :]))
+                if not ok:
+                    ctx.fail(pub(case), f"chs-local: moving point {j} changed samples at distance >= 2 knots (flat index {jj})")
         except Exception as e:
             ctx.fail(pub(case), f"chs-raises: chspline raised after moving one point: {excs(e)}")
-    # oracle: batch consistency
+    # oracle (class 7): every batch item = the un-batched call on that item alone
     if pf.shape[0] > 1:
-        b = ra.randrange(pf.shape[0])
-        try:
-            ob = P.chspline(before.reshape(-1, N, D)[b].clone(), iv).double()
-            e = float((ob - of[b]).abs().max()) if ob.shape == of[b].shape else math.inf
-            if not e <= 4 * eps * (pmax + N * dmax) + 1e-300:
-                ctx.fail(pub(case), f"chs-batch: batch item {b} differs from the un-batched call by {e:.3e}")
-        except Exception as e:
-            ctx.fail(pub(case), f"chs-raises: chspline raised on one batch item: {excs(e)}")
+        for b in range(pf.shape[0]):
+            try:
+                ob = P.chspline(before.reshape(-1, N, D)[b].clone(), iv).double()
+                if ob.shape != of[b].shape:
+                    ctx.fail(pub(case), f"chs-batch: batch item {b} alone gives shape {tuple(ob.shape)}, in the batch {tuple(of[b].shape)}")
+                    break
+                ok, jj = worst((ob - of[b]).abs(), (4 * eps * scf[b] + tiny).expand_as(ob))
+                if not ok:
+                    ctx.fail(pub(case), f"chs-batch: batch item {b} differs from the un-batched call by {float((ob - of[b]).abs().flatten()[jj]):.3e} (flat index {jj})")
+                    break
+            except Exception as e:
+                ctx.fail(pub(case), f"chs-raises: chspline raised on one batch item: {excs(e)}")
+                break
 
 
 def gen_chs_cases(ctx: Ctx, n: int):
@@ -352,7 +405,12 @@ def build_poses(case):
     rnd = random.Random(case["seed"])
     N, nb, gen, rot, ts = case["N"], int(math.prod(case["batch"])), case["gen"], case["rot"], case["tscale"]
     items, info = [], []
-    for _ in range(nb):
+    gen0, rot0, ts0 = gen, rot, ts
+    regimes = [("walk", 0.0, 0.0), ("walk", 1e-10, 1.0), ("repeat", 0.3, 1.0), ("walk", 2.5, 100.0), ("twist", 1e-7, 1.0),
+               ("walk", EPS[case["dtype"]], 1e-3), ("random", 0.0, 1.0), ("walk", 1.0, 1e4), ("twist", 2.9, 1e-6)]
+    for bi in range(nb):
+        if gen0 == "mixed":      # class 7: every batch item in another regime
+            gen, rot, ts = regimes[(bi + case["seed"]) % len(regimes)]
         if gen == "twist":
             T0 = R.rand_pose(rnd, ts)
             xi = np.concatenate([R.rand_unit(rnd) * ts * rnd.uniform(0.1, 1.0), R.rand_unit(rnd) * rot])
@@ -408,12 +466,16 @@ def call_bspline(X, iv, ex):
 
 
 def check_bs(ctx: Ctx, case, mb: MB) -> None:
+    guard(ctx, case, "bs", lambda: _check_bs(ctx, case, mb))
+
+
+def _check_bs(ctx: Ctx, case, mb: MB) -> None:
     P = pp()
     dtype, iv, N, ex = case["dtype"], case["interval"], case["N"], case["extrapolate"]
     eps = EPS[dtype]
     batch = tuple(case["batch"])
     data, info = build_poses(case)
-    Xt = torch.tensor(data, dtype=torch.float64).reshape(batch + (N, 7)).to(DT[dtype])
+    Xt = case["_X"] if "_X" in case else torch.tensor(data, dtype=torch.float64).reshape(batch + (N, 7)).to(DT[dtype])
     X = P.LieTensor(Xt, ltype=P.SE3_type)
     d64 = Xt.double().reshape(-1, N, 7).numpy()
     before = Xt.clone()
@@ -451,7 +513,11 @@ def check_bs(ctx: Ctx, case, mb: MB) -> None:
         else:
             ctx.fail(pub(case), f"bs-count: {L} poses = {nseg}*{k}+1, the interval {iv!r} has {ke} multiples in [0,1)")
             return
+    case["_out"] = Y.tensor()
     y64 = Y.tensor().double().reshape(-1, L, 7).numpy()
+    if not np.isfinite(y64).all():
+        ctx.fail(pub(case), f"bs-finite: bspline returned non-finite poses for valid input (N={N}, interval={iv!r}, dtype={dtype})")
+        return
     us = torch.arange(0, 1, iv, dtype=DT[dtype]).double().tolist()[:k]
     nb = d64.shape[0]
     rnd = random.Random(case["seed"] + 1)
@@ -491,9 +557,11 @@ def check_bs(ctx: Ctx, case, mb: MB) -> None:
             if bad.size:
                 n = int(bad[0])
                 ctx.disagree("bs", pub(case), f"item {b} pose {n} (segment {n // k}, u-index {n % k}): rotation err {dq[n]:.3e} (tol {qt:.3e}), translation err {dt_[n]:.3e} (tol {tt:.3e})")
+                ctx.fail(pub(case), f"bs-value: bspline pose {n} of item {b} (segment {n // k}, u-index {n % k}) is {got[n].tolist()}, the documented cumulative B-spline "
+                                    f"P_i*Exp(w1 d1)*Exp(w2 d2)*Exp(w3 d3) gives {want[n].tolist()} (rotation err {dq[n]:.3e}, translation err {dt_[n]:.3e}; N={N}, interval={iv!r}, {dtype})")
         mb.add(f"c19.bs {to_wire(eps)} {k} {to_wire(iv)} {1 if ex else 0} {N} " + wire_list(d64[b].flatten().tolist()), cb)
     # oracle: constant-twist motions are reproduced at the right times
-    if case["gen"] == "twist" and not case.get("flip"):
+    if case["gen"] == "twist" and not case.get("flip") and "_X" not in case:
         b = rnd.randrange(nb)
         T0, xi = info[b]["T0"], info[b]["xi"]
         qt, tt = bs_tols(eps, d64[b], us)
@@ -535,15 +603,17 @@ def check_bs(ctx: Ctx, case, mb: MB) -> None:
         ctx.fail(pub(case), f"bs-raises: bspline raised on G*data: {excs(e)}")
     # oracle: batch consistency
     if nb > 1:
-        b = rnd.randrange(nb)
-        try:
-            yb = call_bspline(P.LieTensor(before.reshape(-1, N, 7)[b].clone(), ltype=P.SE3_type), iv, ex).tensor().double().numpy()
-            qt, tt = bs_tols(eps, d64[b], us)
-            dq, dt_ = R.pose_dist(yb, y64[b]) if yb.shape == y64[b].shape else (np.array([math.inf]), np.array([math.inf]))
-            if not (dq.max() <= 8 * eps and dt_.max() <= 8 * eps * (1 + np.abs(d64[b][:, :3]).max() * 3)):
-                ctx.fail(pub(case), f"bs-batch: batch item {b} differs from the un-batched call (rotation {dq.max():.3e}, translation {dt_.max():.3e})")
-        except Exception as e:
-            ctx.fail(pub(case), f"bs-raises: bspline raised on one batch item: {excs(e)}")
+        for b in range(nb):
+            try:
+                yb = call_bspline(P.LieTensor(before.reshape(-1, N, 7)[b].clone(), ltype=P.SE3_type), iv, ex).tensor().double().numpy()
+                dq, dt_ = R.pose_dist(yb, y64[b]) if yb.shape == y64[b].shape else (np.array([math.inf]), np.array([math.inf]))
+                tb = 8 * eps * (np.abs(d64[b][:, :3]).max() * 3) + 1e-300      # the item's own translation scale
+                if not (dq.max() <= 8 * eps and dt_.max() <= tb):
+                    ctx.fail(pub(case), f"bs-batch: batch item {b} differs from the same call on that item alone (rotation {dq.max():.3e}, translation {dt_.max():.3e}, own tolerance {tb:.3e}); gen={case['gen']}")
+                    break
+            except Exception as e:
+                ctx.fail(pub(case), f"bs-raises: bspline raised on one batch item: {excs(e)}")
+                break
     # oracle: continuity across segment joins (interval just below 1/m: last parameter is 1-g)
     if case.get("continuity") and not near_pi(d64[0]):
         m = case["continuity"]
@@ -585,9 +655,10 @@ def gen_bs_cases(ctx: Ctx, n: int):
         iv = gen_interval(rng, small_ok=False)
         while k_exact(iv) * (N + 1) > (300 if ctx.quick else 900):
             iv = rng.choice([0.5, 0.4, 0.3, 0.25, 0.7, 1 / 3, 0.6])
-        gen = rng.choice(["walk", "walk", "twist", "twist", "random", "repeat"])
+        gen = rng.choice(["walk", "walk", "twist", "twist", "random", "repeat", "mixed"])
         rot = rng.choice(ROT_LADDER) if gen != "twist" else rng.choice([1e-10, 1e-7, 1e-4, 1e-2, 0.1, 0.5, 1.0, 2.0, 2.9, math.pi - 0.1])
-        cases.append({"kind": "bs", "dtype": rng.choice(["float64", "float64", "float32"]), "N": N, "batch": small_batch(rng),
+        cases.append({"kind": "bs", "dtype": rng.choice(["float64", "float64", "float32"]), "N": N,
+                      "batch": (rng.choice([[3], [2, 3], [5]]) if gen == "mixed" else small_batch(rng)),
                       "interval": iv, "extrapolate": ex, "gen": gen, "rot": rot,
                       "tscale": rng.choice([0.0, 1e-3, 1.0, 1.0, 100.0]), "flip": rng.random() < 0.25,
                       "continuity": rng.choice([0, 0, 1, 2, 3]), "seed": rng.randrange(1 << 30)})
@@ -700,17 +771,33 @@ def build_geo(case):
 def call_geo(case, X, Y, reduction):
     P = pp()
     if case["api"] == "module":
-        return P.module.GeodesicLoss(reduction=reduction)(X, Y)
+        m, _ = geo_module(reduction)
+        return m(X, Y)
     return P.geodesic_loss(X, Y, reduction=reduction)
 
 
+_GEO_MODULES = {}
+
+
+def geo_module(reduction):
+    """class 4: ONE GeodesicLoss object per reduction for the whole run, re-used with every type / shape / dtype"""
+    if reduction not in _GEO_MODULES:
+        m = pp().module.GeodesicLoss(reduction=reduction)
+        _GEO_MODULES[reduction] = (m, {k: v for k, v in vars(m).items() if not k.startswith("_")})
+    return _GEO_MODULES[reduction]
+
+
 def check_geo(ctx: Ctx, case, mb: MB) -> None:
+    guard(ctx, case, "geo", lambda: _check_geo(ctx, case, mb))
+
+
+def _check_geo(ctx: Ctx, case, mb: MB) -> None:
     P = pp()
     dtype = case["dtype"]
     eps = EPS[dtype]
     X, Y, so, angs = build_geo(case)
     bx, by = X.tensor().clone(), Y.tensor().clone()
-    tol = 64 * eps
+    tol = 16 * eps          # absolute part (unit quaternions carry eps absolute noise); + 16 eps relative to the angle below
     try:
         with warnings.catch_warnings():
             warnings.simplefilter("ignore")
